@@ -15,8 +15,15 @@ const (
 // client state: at-least-once 0x8000, 0x8001 in flight; exactly-once 0xc000
 // awaiting PUBCOMP, 0xc001 awaiting PUBREC; SUBSCRIBE 0x6000 with one filter
 // and a Ping pending.
-func hostileClass(raw []byte) (int, string) {
-	st := &hostileState{acks: []uint16{0x8000, 0x8001}, recs: []uint16{0xc001}, comps: []uint16{0xc000}}
+func hostileClass(raw []byte) (int, string) { return hostileClassIn(raw, false) }
+
+// hostileClassIn with loose set judges without knowledge of the client state:
+// the bytes may arrive in any phase (hostileany), so an acknowledgement for an
+// identifier the scenario uses at all may or may not be in order, and a SUBACK
+// may find its request pending or not. Only verdicts that hold in every state
+// remain rejections.
+func hostileClassIn(raw []byte, loose bool) (int, string) {
+	st := &hostileState{acks: []uint16{0x8000, 0x8001}, recs: []uint16{0xc001}, comps: []uint16{0xc000}, loose: loose}
 	worst := hLegit
 	for len(raw) > 0 {
 		n, err := splitPacket(raw)
@@ -38,7 +45,13 @@ func hostileClass(raw []byte) (int, string) {
 	return worst, ""
 }
 
-type hostileState struct{ acks, recs, comps []uint16 }
+type hostileState struct {
+	acks, recs, comps []uint16
+	loose             bool
+}
+
+// hostileIDs are the identifiers the publishes of the hostile scenarios get.
+var hostileIDs = map[int][]uint16{tPUBACK: {0x8000, 0x8001}, tPUBREC: {0xc000, 0xc001}, tPUBCOMP: {0xc000, 0xc001}}
 
 func (st *hostileState) class(raw []byte) (int, string) {
 	typ, flags := int(raw[0]>>4), raw[0]&15
@@ -84,6 +97,14 @@ func (st *hostileState) class(raw []byte) (int, string) {
 			return hReject, "packet identifier zero"
 		}
 		q := map[int]*[]uint16{tPUBACK: &st.acks, tPUBREC: &st.recs, tPUBCOMP: &st.comps}[typ]
+		if st.loose {
+			for _, used := range hostileIDs[typ] {
+				if id == used {
+					return hEither, ""
+				}
+			}
+			return hReject, fmt.Sprintf("foreign identifier %#04x", id)
+		}
 		if len(*q) == 0 || id != (*q)[0] {
 			return hReject, fmt.Sprintf("out-of-order, unsolicited or foreign identifier %#04x", id)
 		}
@@ -115,7 +136,7 @@ func (st *hostileState) class(raw []byte) (int, string) {
 				return hReject, "illegal SUBACK return code"
 			}
 		}
-		if id == 0x6000 && len(body) != 3 {
+		if id == 0x6000 && len(body) != 3 && !st.loose {
 			return hReject, "SUBACK return code count does not match the request"
 		}
 		return hEither, ""
@@ -205,7 +226,8 @@ func (w *World) monitorHostile() {
 		return
 	}
 	raw := w.scn.Hostile[w.hostileIdx]
-	class, why := hostileClass(raw)
+	loose := w.scn.HostileOK == nil // injected in an arbitrary phase
+	class, why := hostileClassIn(raw, loose)
 	hIdx := -1
 	for i, e := range w.log {
 		if e.K == "bk-hostile" {
@@ -243,7 +265,28 @@ func (w *World) monitorHostile() {
 	// no forged progress: records removed and exchanges closed after the
 	// hostile bytes need the matching in-order acknowledgement inside them
 	acked := map[int]bool{}
-	{
+	if loose {
+		// any acknowledgement of the right kind inside the bytes, and whatever
+		// the conforming broker sent on that connection, in any order
+		noteAcks := func(b []byte) {
+			for len(b) > 0 {
+				n, err := splitPacket(b)
+				if err != nil {
+					return
+				}
+				if t := int(b[0] >> 4); (t == tPUBACK || t == tPUBREC || t == tPUBCOMP) && n == 4 {
+					acked[int(b[2])<<8|int(b[3])] = true
+				}
+				b = b[n:]
+			}
+		}
+		noteAcks(raw)
+		for _, e := range w.log {
+			if e.K == "bk-send" && e.C == hConn {
+				noteAcks(e.B)
+			}
+		}
+	} else {
 		st := &hostileState{acks: []uint16{0x8000, 0x8001}, recs: []uint16{0xc001}, comps: []uint16{0xc000}}
 		b := raw
 		for len(b) > 0 {
@@ -262,11 +305,11 @@ func (w *World) monitorHostile() {
 		}
 	}
 	for _, e := range w.log[hIdx:] {
+		if e.K == "dial" && e.C > hConn {
+			break // a fresh connection talks to the conforming broker again
+		}
 		if e.C != 0 && e.C != hConn {
 			continue
-		}
-		if e.K == "dial" {
-			break // a fresh connection talks to the conforming broker again
 		}
 		if e.K == "store" && e.S == "delete" && e.R == "" && e.N >= 0x8000 && e.N < 1<<16 && !acked[e.N] {
 			w.Violate("C13", "forged-progress-record", "record %#04x was deleted after the broker sent %x, which is not its in-order acknowledgement", e.N, raw)
@@ -379,4 +422,25 @@ func init() {
 	register("hostile", mkHostile(false, false))
 	register("hostilefull", mkHostile(true, false))
 	register("hostileany", mkHostile(false, true))
+	// the strings that end inside a packet, in any phase: what is left to the
+	// clock (PauseTimeout) while other goroutines keep writing
+	register("hostilepart", func() *Scenario {
+		s := mkHostile(false, true)()
+		var part [][]byte
+		for _, raw := range s.Hostile {
+			b := raw
+			for len(b) > 0 {
+				n, err := splitPacket(b)
+				if err != nil {
+					if err == errIncomplete {
+						part = append(part, raw)
+					}
+					break
+				}
+				b = b[n:]
+			}
+		}
+		s.Hostile = part
+		return s
+	})
 }
